@@ -185,6 +185,9 @@ func main() {
 			cmd := exec.Command(bin, "-prop", prop, "-tier", *tier, "-shard", strconv.Itoa(i), "-nshards", strconv.Itoa(n),
 				"-seed", strconv.FormatInt(*seed, 10), "-out", out, "-known", knownFile, "-budget", cap.String())
 			cmd.Env = append(os.Environ(), "GOMAXPROCS=2", "GOGC=200")
+			if info.RaceBuild {
+				cmd.Env = append(cmd.Env, "GORACE=halt_on_error=0 exitcode=0 log_path="+filepath.Join(wd, fmt.Sprintf("race-%d", i)))
+			}
 			var stderr bytes.Buffer
 			cmd.Stderr = &stderr
 			cmd.Stdout = &stderr
